@@ -297,6 +297,9 @@ func (s *Server) send(c net.Conn, id int, full bool, from int, psync bool) {
 		if n <= 0 {
 			n = 1
 		}
+		if pos+n > streamStart {
+			s.emit(Event{Kind: "sending", Conn: id, N: int64(from + pos + n - streamStart)})
+		}
 		if _, err := c.Write(all[pos : pos+n]); err != nil {
 			return
 		}
